@@ -257,8 +257,16 @@ class StackRig(Rig):
         self.settle()
         return s
 
+    pump = True     # False: responses stay in the TCP server's write buffer until pump_writes() is called
+
     def settle(self, max_ticks=60):
         ok = Rig.settle(self, max_ticks)
+        if not self.pump:
+            return ok
+        return self.pump_writes(max_ticks) and ok
+
+    def pump_writes(self, max_ticks=60):
+        ok = True
         rounds = 0
         while rounds < 400:
             busy = [s for s in list(self.conns) if isinstance(s, StackSock) and not s.is_closed and self.poller.isWriting(s)]
